@@ -2134,3 +2134,45 @@ def rule_delete_answers_gone(ctx, rep, rid: str) -> None:
                     rep.ok(rid, key)
     if n == 0:
         raise AnalysisError(f"{rid}: the interpreter's delete helper was not found")
+
+
+def rule_native_arrays_get_the_prototype(ctx, rep, rid: str) -> None:
+    """Every array a script can hold is an Array: `[1].map(f) instanceof Array`, and getPrototypeOf agrees with that of a
+    literal.  The natives build their results with the bare host class; the one place all of them pass on their way to
+    the script - the helper that calls a host function for the interpreter - gives a result array without a
+    prototype the realm's Array.prototype, and the converters do the same for the lists and dicts they build."""
+    rep.rule(rid, "the helper through which every native result reaches the script links an array result that has no prototype to the Array prototype, and the converter from host values sets the prototype of the containers it builds", floor=2)
+    vmcls = ctx.facts.vm_dispatcher()[0].cls
+    from .recursion import _host_call_helpers
+
+    helpers = _host_call_helpers(ctx)
+    n = 0
+    for hid, (h, ci, li) in helpers.items():
+        if h.cls is not vmcls:
+            continue
+        n += 1
+        key = f"{h.qual}:array-result-linked"
+        links = [a for a in h.own_nodes() if isinstance(a, ast.Assign) and any(isinstance(t, ast.Attribute) and t.attr == "_prototype" for t in a.targets)]
+        tested = any(isinstance(c, ast.Call) and norm(c.func) == "isinstance" and len(c.args) == 2 and "JSArray" in norm(c.args[1]) for c in h.own_nodes())
+        if links and tested:
+            rep.ok(rid, key)
+        else:
+            rep.bad(rid, key, f"{h.qual} hands the result of a native to the script as it is: the arrays that map, filter, slice, concat, split, Object.keys return are bare host objects without a prototype, so `[1].map(f) instanceof Array` is false and Object.getPrototypeOf differs from that of a literal", h.loc)
+    if n == 0:
+        raise AnalysisError(f"{rid}: the interpreter's host-call helper was not found")
+    tj = ctx.tree.func("context:Context._to_js")
+    key = f"{tj.qual}:containers-linked"
+    made = [a for a in tj.own_nodes() if isinstance(a, ast.Assign) and isinstance(a.value, ast.Call) and norm(a.value.func) in ("JSArray", "JSObject") and len(a.targets) == 1 and isinstance(a.targets[0], ast.Name)]
+    unlinked = []
+    for a in made:
+        v = a.targets[0].id
+        has_arg = bool(a.value.args) and norm(a.value.func) == "JSObject"
+        linked = has_arg or any(isinstance(x, ast.Assign) and any(norm(t) == f"{v}._prototype" for t in x.targets) for x in tj.own_nodes())
+        if not linked:
+            unlinked.append(a)
+    if made and not unlinked:
+        rep.ok(rid, key, {"containers": len(made)})
+    elif not made:
+        rep.ok(rid, key, {"note": "containers are built elsewhere (judged by C11-R10)"})
+    else:
+        rep.bad(rid, key, f"{tj.qual} builds `{short(unlinked[0].value, 20)}` (line {unlinked[0].lineno}) without a prototype: a list or dict the embedder hands in is not an Array/Object for instanceof, and has none of the inherited members a script-made one has", f"{tj.module.rel}:{unlinked[0].lineno}")
